@@ -41,6 +41,7 @@ Fails(pre, ev, out, post, gap, lastd, declined) ==
         F(name, ok) == IF ok THEN <<>> ELSE <<name>>
     IN  F("D1", c04 => D1(pre, ev, out, post)) \o F("D2", c04 => D2(pre, ev, out, post))
      \o F("D3", c04 => D3(pre, ev, out, post, gap)) \o F("D4", c04 => D4(pre, ev, out, post))
+     \o F("D5", c04 => D5(pre, ev, out, post))
      \o F("DH", DH(out, lastd))
      \o F("N1", N1(pre, out)) \o F("N2", N2(pre, out, post)) \o F("N3", N3(out, post))
      \o F("N4", N4(pre, out, post)) \o F("N5", N5(pre, ev, out, post))
